@@ -7,16 +7,38 @@ mod proto;
 use proto::*;
 
 mod chan_hex;
+mod chan_time;
+
+fn mode_of_build() -> &'static str {
+    if cfg!(debug_assertions) {
+        "D"
+    } else {
+        "R"
+    }
+}
 
 fn run_line(line: &str) -> String {
-    let toks: Vec<&str> = line.split(' ').filter(|t| !t.is_empty()).collect();
+    let mut toks: Vec<&str> = line.split(' ').filter(|t| !t.is_empty()).collect();
     if toks.is_empty() {
         return "BADCASE".into();
+    }
+    if toks[0] == "D" || toks[0] == "R" {
+        if toks[0] != mode_of_build() {
+            return "WRONGMODE".into();
+        }
+        toks.remove(0);
+        if toks.is_empty() {
+            return "BADCASE".into();
+        }
     }
     let args = &toks[1..];
     let r = panic::catch_unwind(|| match toks[0] {
         "HEX" => chan_hex::hex(args),
         "UNHEX" => chan_hex::unhex(args),
+        "UNIX" => chan_time::unix(args),
+        "TSTR" => chan_time::tstr(args),
+        "TSFMT" => chan_time::tsfmt(args),
+        "NOW" => chan_time::now(args),
         _ => "BADCASE".to_string(),
     });
     match r {
